@@ -173,6 +173,12 @@ pub fn c13(c: &Case, rep: &mut Report) {
     for o in &nin.other_subsections {
         rep.observe("uninterpreted-name-subsections-in-inputs", o);
     }
+    // with generate_synthetic_names_for_anonymous_items an entity the input leaves unnamed gets a made-up name:
+    // that is what the switch is for; names the input does give must still be the ones emitted
+    let synth = end.num("cfg").map(|c| c & 4 != 0).unwrap_or(false);
+    if synth {
+        rep.count("cases-with-synthetic-names-switched-on", 1);
+    }
     let mut total_checked = 0u64;
     for label in ["emit", "gc"] {
         let out = match end.get(&format!("out.{}", label)) {
@@ -202,7 +208,7 @@ pub fn c13(c: &Case, rep: &mut Report) {
             continue;
         }
         let blob = [("out.wasm", &out[..])];
-        if nin.module != nout.module {
+        if nin.module != nout.module && !(synth && nin.module.is_none()) {
             rep.violation(c, "C13/module-name", &format!("{}: module name {:?} became {:?}", label, nin.module, nout.module), &blob);
         }
         // simple index spaces
@@ -231,6 +237,9 @@ pub fn c13(c: &Case, rep: &mut Report) {
             for (j, m) in b {
                 match map.get_rev(*j) {
                     Some(i) => {
+                        if synth && am.get(&i).is_none() {
+                            continue;
+                        }
                         if am.get(&i).map(|n| *n != m).unwrap_or(true) {
                             let owner = a.iter().find(|(_, n)| n == m).map(|(k, _)| *k);
                             let sig = if owner.is_some() { "name-migrated" } else { "name-invented" };
@@ -256,6 +265,9 @@ pub fn c13(c: &Case, rep: &mut Report) {
                 if let Some(s) = dout.types.get(*j as usize) {
                     let k = ident::sig(s);
                     total_checked += 1;
+                    if synth && !by_sig_in.contains_key(&k) {
+                        continue;
+                    }
                     if !by_sig_in.get(&k).map(|v| v.contains(&n)).unwrap_or(false) {
                         rep.violation(c, "C13/type-name-migrated", &format!("{}: output type {} {} carries {:?}, no input type with that signature has this name", label, j, k, n), &blob);
                     }
@@ -304,7 +316,8 @@ pub fn c13(c: &Case, rep: &mut Report) {
             for (lo, m) in b {
                 let pre = rmap.get(lo);
                 let ok = pre.map(|li| a.iter().any(|(x, n)| x == li && n == m)).unwrap_or(false);
-                if !ok {
+                let unnamed_in_input = pre.map(|li| !a.iter().any(|(x, _)| x == li)).unwrap_or(false);
+                if !ok && !(synth && unnamed_in_input) {
                     rep.violation(c, "C13/local-name-migrated", &format!("{}: function out#{} local {} carries {:?}; its preimage is local {:?} of in#{}", label, fo, lo, m, pre, fi), &blob);
                 }
             }
